@@ -508,9 +508,14 @@ def _recs(line):
     try: return trackref.parse_map(line)
     except Exception: return None
 
+TRACKER_BASE = ["fn:rsadsb_common/lib.rs::Airplanes::action", "fn:rsadsb_common/lib.rs::Airplanes::entry_or_insert", "fn:rsadsb_common/lib.rs::Airplanes::incr_messages", "fn:rsadsb_common/lib.rs::Default for AirplaneState::default", "fn:rsadsb_common/lib.rs::From<bool> for Added::from"]
+TRACKER_POS = ["fn:rsadsb_common/lib.rs::Airplanes::update_position", "fn:rsadsb_common/lib.rs::AirplaneCoor::update_position", "fn:rsadsb_common/lib.rs::AirplaneCoor::haversine_distance", "fn:rsadsb_common/lib.rs::AirplaneCoor::haversine_distance_position"]
+TRACKER_ATTR = ["fn:rsadsb_common/lib.rs::Airplanes::add_identification", "fn:rsadsb_common/lib.rs::Airplanes::add_airborne_velocity", "fn:rsadsb_common/lib.rs::Airplanes::aircraft_details", "fn:rsadsb_common/lib.rs::Airplanes::all_position",
+                "fn:rsadsb_common/lib.rs::AirplaneCoor::altitude", "fn:rsadsb_common/lib.rs::fmt::Display for Airplanes::fmt"]
 class TrackerProp(Prop):
     stateful = True
-    deps = ["shape:get_position", "shape:AirborneVelocity::calculate"]
+    # the functions of the tracker crate the model was written against (text tie, besides the differential correspondence)
+    deps = ["shape:get_position", "shape:AirborneVelocity::calculate"] + TRACKER_BASE
     technique = "Lean 4 theorems (induction over histories, invariants) over a model of the tracker generic in geometry and clock + differential correspondence on generated histories + reference oracle"
     histories = (60, 150)
     def ops(self, rng, tier):
@@ -542,7 +547,7 @@ class TrackerProp(Prop):
 class C12(TrackerProp):
     id = "C12"; module = "Adsb.Theorems.C12"; design_ref = "5/C12"
     modules = ["Adsb.Theorems.C12", "Adsb.Theorems.C12b"]
-    deps = []
+    deps = TRACKER_BASE + ["fn:rsadsb_common/lib.rs::Airplanes::prune", "fn:rsadsb_common/lib.rs::Airplanes::add_identification", "fn:rsadsb_common/lib.rs::Airplanes::add_airborne_velocity", "fn:rsadsb_common/lib.rs::Airplanes::update_position"]
     rule = ("generated histories (60 x 150 ops quick): 1-5 interleaved aircraft (DF17 and DF18, announced address != parity), identification / velocity / "
             "position (consistent flights, jumps, garbage, repeats) / other type codes / other downlink formats, waits and expiry calls; after every "
             "operation the whole map is compared; non-trivial = operations on a non-empty tracker")
@@ -554,6 +559,7 @@ class C12(TrackerProp):
 class C13(TrackerProp):
     id = "C13"; module = "Adsb.Theorems.C13"; design_ref = "5/C13"
     modules = ["Adsb.Theorems.C13", "Adsb.Theorems.C13b"]
+    deps = TrackerProp.deps + TRACKER_POS
     rule = C12.rule + "; receivers at 6 sites incl. high latitude and the antimeridian, ranges 150-1000 km"
     claim = "publish iff both reports stored, pairing in range and within the jump limit; otherwise the record is cleared; invariant: published position = pairing of stored reports, distance = receiver distance, for every reachable state; the haversine formula of the tracker (model generic in the number type) equals radius x central angle of the two unit vectors over the reals (Theorems/C13b: haversine_is_great_circle, symmetry, range [0, 6371*pi], 0 to itself, antipodes)"
     note = "the theorems about histories take the distance and the CPR pairing as parameters; the distance formula itself is proved over the reals (Mathlib), its f64 evaluation and the CPR pairing are tied numerically (reference great-circle distance and exact-arithmetic CPR decode in tools/cprspec.py)"
@@ -566,6 +572,7 @@ class C13(TrackerProp):
 
 class C14(TrackerProp):
     id = "C14"; module = "Adsb.Theorems.C14"; design_ref = "5/C14"
+    deps = TrackerProp.deps + TRACKER_POS + TRACKER_ATTR
     rule = C12.rule
     claim = "callsign / velocity latest-wins, altitude of a stored report, details iff position+altitude+distance, position list = records with a position, distance iff position (invariant), track = previously published positions in order"
     with_time = False
@@ -575,7 +582,7 @@ class C14(TrackerProp):
 class C15(TrackerProp):
     id = "C15"; module = "Adsb.Theorems.C15"; design_ref = "5/C15"
     modules = ["Adsb.Theorems.C15", "Adsb.Theorems.C12b"]
-    deps = []
+    deps = TRACKER_BASE + ["fn:rsadsb_common/lib.rs::Airplanes::prune"]
     rule = C12.rule + "; waits on both sides of each threshold T in {0,1,2,120} s by 60 ms (clock advanced through the verif_age_all hook)"
     claim = ("prune(T) keeps exactly the records heard less than T seconds ago, unchanged; a reappearing aircraft is added fresh (theorems; the wall clock is a parameter); "
              "account_refines: over whole histories of frames and expiries each address follows the abstract (count, lastHeard) machine with exactly this expiry rule")
@@ -585,7 +592,7 @@ class C15(TrackerProp):
 
 class C20(Prop):
     id = "C20"; module = "Adsb.Theorems.C20"; design_ref = "5/C20"
-    deps = ["cfg:items"]
+    deps = ["cfg:items"] + TRACKER_BASE + TRACKER_POS + ["fn:rsadsb_common/lib.rs::Airplanes::add_identification", "fn:rsadsb_common/lib.rs::Airplanes::add_airborne_velocity"]
     stateful = True
     level = "proof"
     technique = ("Lean 4 theorems: nothing but the time stamps depends on the std flag (per step); configuration differential: the harness is built "
@@ -916,9 +923,10 @@ import os, json
 
 class C16(E2EProp):
     id = "C16"; module = "Adsb.Theorems.C16"; design_ref = "5/C16"
-    deps = []
+    # the functions the loop model was written against (text tie, besides the end-to-end scenarios)
+    deps = ["fn:apps/1090/1090.rs::main", "fn:apps/radar/radar.rs::main", "fn:apps/radar/radar.rs::parse_line", "fn:apps/radar/radar.rs::init_tcp_reader"]
     rule = ("a corpus feed (valid frames of 3 aircraft + 20 kinds of malformed lines: empty, 1-2 bytes, non-hex, odd length, non-ASCII, invalid UTF-8, all-zero, "
-            "unsupported format, 300 bytes, CRLF) sent whole / per line / per line with 160 ms gaps / byte by byte / random chunks with gaps; every split "
+            "unsupported format, 300 bytes, CRLF, and five very long lines of 4 KiB - 70 KiB) sent whole / per line / per line with 160 ms gaps / byte by byte / random chunks with gaps; every split "
             "point of one line with a 170 ms gap; malformed-only feed; 1090: rendered frames on stdout = the decodable complete lines in order; radar (pty): "
             "message counts per aircraft on the Airplanes tab, clean exit on disconnect, reconnect with --retry-tcp keeps the aircraft; "
             "non-trivial = distinct scenarios")
@@ -931,7 +939,8 @@ class C16(E2EProp):
 
 class C17(E2EProp):
     id = "C17"; module = "Adsb.Theorems.C17"; design_ref = "5/C17"
-    deps = []
+    # every function of the radar program (handlers, draw functions, tabs, command line) and the inventory of its panic / narrowing sites
+    deps = ["fn:apps/radar/", "panicapps:"]
     rule = ("radar under a pty: random histories of keys (F1-F5, Tab, arrows, Enter, l/i/h/t/n/+/-/other), SGR mouse events (clicks on and off the tab bar, "
             "drags, releases, scrolls, other buttons, coordinates past the screen edge), resizes (1x1 .. 60x5 .. 7x200) and traffic, with 0 / 1 / 3 / 5 tracked "
             "aircraft (with and without a position), aircraft expiring under a selection (--filter-time=3), touchscreen on/off, --disable-* flags, --locations; "
@@ -955,7 +964,8 @@ class C17(E2EProp):
 class C18(E2EProp):
     id = "C18"; module = "Adsb.Theorems.C18"; design_ref = "5/C18"
     modules = ["Adsb.Theorems.C18", "Adsb.Theorems.C18b"]
-    deps = []
+    deps = ["fn:apps/radar/airplanes.rs", "fn:apps/radar/stats.rs", "fn:apps/radar/map.rs", "fn:apps/radar/radar.rs::Settings::", "fn:apps/radar/radar.rs::main",
+            "fn:apps/radar/radar.rs::draw", "fn:apps/radar/radar.rs::handle_keyevent", "fn:apps/radar/radar.rs::handle_mouseevent"]
     rule = ("radar under a pty (40x140 / 50x160): feeds of 0-8 aircraft in the four quadrants around the receiver (positions, identifications, velocities, "
             "other formats, malformed lines) with random view controls (keys, clicks, drags, scrolls - everything but quit) interleaved; then the Airplanes "
             "tab is read cell by cell and compared with the tracker model's records after the same frames (address, callsign, lat, long, heading, altitude, "
